@@ -4,7 +4,7 @@ import time
 from concurrent.futures import Future, ThreadPoolExecutor
 
 from checks import streams
-from checks.common import swarm
+from checks.common import swarm, exc_choice
 
 ID = 'C01'
 LEVEL = 'exploration'
@@ -42,11 +42,11 @@ def gen(rng, tier):
         st['c'] = rng.choice([1, 2, 3])
     nfail = rng.choice([0, 0, 1, 1, 2, 3]) if n else 0
     if nfail:
-        st['fail'] = {'idx': sorted(rng.sample(range(n), min(n, nfail))), 'exc': rng.choice(['ExcA', 'ExcB', 'ExcC', 'KeyError'])}
+        st['fail'] = {'idx': sorted(rng.sample(range(n), min(n, nfail))), 'exc': exc_choice(rng, ['ExcA', 'ExcB', 'ExcC', 'KeyError'])}
     if mode in ('fifo_pool', 'fifo_completer', 'parmapper', 'parmap_process') and rng.random() < 0.4:
         st['pre'] = True
         if n and rng.random() < 0.7:
-            st['pre_fail'] = {'idx': sorted(rng.sample(range(n), min(n, rng.choice([1, 1, 2])))), 'exc': rng.choice(['ExcA', 'ExcB', 'KeyError'])}
+            st['pre_fail'] = {'idx': sorted(rng.sample(range(n), min(n, rng.choice([1, 1, 2])))), 'exc': exc_choice(rng, ['ExcA', 'ExcB', 'KeyError'])}
             if rng.random() < 0.3:
                 st['pre_fail']['idx'] = sorted(set(st['pre_fail']['idx']) | {0})
     if n and rng.random() < 0.15:
